@@ -543,7 +543,12 @@ def err_program(rng, pid, horizon):
     prev = 1
     npre = rng.randint(0, 2)
     for _ in range(npre):
-        nodes.append(P.node(rng.choice(["pass", "add", "count", "acc"]), ins=[prev], k=rng.choice([0, 1, -3])))
+        # self-scheduling nodes upstream of the thrower (delay / echo): they hold a future wake-up when the thrower
+        # throws, and the wrapped sub-graph's next activation is then driven by that timer alone
+        kind = rng.choice(["pass", "add", "count", "acc", "delay", "echo"])
+        if _ == npre - 1 and rng.random() < 0.4:
+            kind = rng.choice(["delay", "echo"])
+        nodes.append(P.node(kind, ins=[prev], k=rng.choice([1, 2]) if kind in ("delay", "echo") else rng.choice([0, 1, -3])))
         prev = len(nodes)
     first_in_chain = 2
     nodes.append(P.node("throwneg", ins=[prev], cap=1))
